@@ -127,6 +127,23 @@ func (env *vhClientEnv) checks(ses *Session, err error) {
 			vAssert(rx.State == SessionStateAuthenticating, "c08:credentials-only-answer-an-authentication-request")
 		}
 	}
+	// C09, client side: a confirmation is applied before the client reads or sends anything else
+	if len(t.rxLog) >= 2 && t.rxLog[0].State == SessionStateNegotiating && t.rxLog[1].State == SessionStateNegotiating &&
+		len(t.encAtRecv) >= 3 && !t.setFails {
+		conf := t.rxLog[1]
+		vReach("c09:client-got-confirmation")
+		if conf.Encryption != "" {
+			vAssert(t.encAtRecv[2] == conf.Encryption, "c09:client-applies-confirmed-encryption-before-next-receive")
+		}
+		if conf.Compression != "" {
+			vAssert(t.compAtRecv[2] == conf.Compression, "c09:client-applies-confirmed-compression-before-next-receive")
+		}
+		for i := 0; i < len(t.sent); i++ {
+			if s, ok := t.sent[i].(*Session); ok && s.Authentication != nil && conf.Encryption != "" {
+				vAssert(t.encAtSend[i] == conf.Encryption, "c09:client-credentials-travel-under-confirmed-encryption")
+			}
+		}
+	}
 	// finished / failed from the server closes the connection
 	if t.lastRx != nil && t.rxErrs == 0 && t.rxAliens == 0 {
 		if t.lastRx.State == SessionStateFinished || t.lastRx.State == SessionStateFailed {
